@@ -24,7 +24,7 @@ SCRATCH = "/tmp/mut_E3_out"
 
 # (name, kind, file, [(old text, new text)], Props id, expectation)
 MUTATIONS = [
-    ("unchanged", "control", None, [], "C17 C19 C18 C09", "all pass"),
+    ("unchanged", "control", None, [], "C17 C19 C18 C09 C14 C10 C02 C20", "all pass"),
     # ---- meaning-changing edits (the brief's four, plus further ones)
     ("max_bond_length: or -> and", "breaking", "mofun/detect_bonds.py",
      [("if el1 in NON_METALS or el2 in NON_METALS:", "if el1 in NON_METALS and el2 in NON_METALS:")], "C17", "fail"),
@@ -83,6 +83,52 @@ MUTATIONS = [
      [("return max(len(self.bond_type_coeffs), max(self.bond_types) + 1)", "return max(max(self.bond_types) + 1, len(self.bond_type_coeffs))")], "C09", "pass"),
     ("dihedral_params: operands of the sp2-neighbour `or` swapped", "neutral", "mofun/rough_uff.py",
      [("if {h[0], h[1]} <= {'2'} or {h[2], h[3]} <= {'2'}:", "if {h[2], h[3]} <= {'2'} or {h[0], h[1]} <= {'2'}:")], "C18", "pass"),
+    # ---- second batch
+    ("find_element: abs dropped from the key (one-sided nearest)", "breaking", "mofun/helpers.py",
+     [("key=lambda kv: abs(kv[1] - elmass))", "key=lambda kv: kv[1] - elmass)")], "C14", "fail"),
+    ("find_element: < max_delta -> <= max_delta", "breaking", "mofun/helpers.py",
+     [("if abs(mass - elmass) < max_delta:", "if abs(mass - elmass) <= max_delta:")], "C14", "fail"),
+    ("find_element: min -> max", "breaking", "mofun/helpers.py",
+     [("sym, mass = min(ATOMIC_MASSES.items()", "sym, mass = max(ATOMIC_MASSES.items()")], "C14", "fail"),
+    ("find_element: operands of both differences swapped, locals renamed", "neutral", "mofun/helpers.py",
+     [("        sym, mass = min(ATOMIC_MASSES.items(), key=lambda kv: abs(kv[1] - elmass))\n        if abs(mass - elmass) < max_delta:\n            return sym\n",
+       "        s, w = min(ATOMIC_MASSES.items(), key=lambda e: abs(elmass - e[1]))\n        if abs(elmass - w) < max_delta:\n            return s\n")], "C14", "pass"),
+    ("pop: % len(self) dropped", "breaking", "mofun/atoms.py", [("del(self[[pos % len(self)]])", "del(self[[pos]])")], "C10", "fail"),
+    ("pop: pos -> pos + 1", "breaking", "mofun/atoms.py", [("del(self[[pos % len(self)]])", "del(self[[(pos + 1) % len(self)]])")], "C10", "fail"),
+    ("pop: default -1 -> 0", "breaking", "mofun/atoms.py", [("    def pop(self, pos=-1):", "    def pop(self, pos=0):")], "C10", "fail"),
+    ("pop: index bound to a local first", "neutral", "mofun/atoms.py",
+     [("        del(self[[pos % len(self)]])", "        i = pos % len(self)\n        del(self[[i]])")], "C10", "pass"),
+    ("group_duplicates: new key gets an empty list", "breaking", "mofun/helpers.py",
+     [("def group_duplicates(match_indices, key=lambda m: tuple(sorted(m))):\n    keyed_tuples = {}\n    for m in match_indices:\n        mkey = key(m)\n        if mkey not in keyed_tuples:\n            keyed_tuples[mkey] = [m]",
+       "def group_duplicates(match_indices, key=lambda m: tuple(sorted(m))):\n    keyed_tuples = {}\n    for m in match_indices:\n        mkey = key(m)\n        if mkey not in keyed_tuples:\n            keyed_tuples[mkey] = []")], "C02", "fail"),
+    ("group_duplicates: known key overwritten instead of appended", "breaking", "mofun/helpers.py",
+     [("def group_duplicates(match_indices, key=lambda m: tuple(sorted(m))):\n    keyed_tuples = {}\n    for m in match_indices:\n        mkey = key(m)\n        if mkey not in keyed_tuples:\n            keyed_tuples[mkey] = [m]\n        else:\n            keyed_tuples[mkey].append(m)",
+       "def group_duplicates(match_indices, key=lambda m: tuple(sorted(m))):\n    keyed_tuples = {}\n    for m in match_indices:\n        mkey = key(m)\n        if mkey not in keyed_tuples:\n            keyed_tuples[mkey] = [m]\n        else:\n            keyed_tuples[mkey] = [m]")], "C02", "fail"),
+    ("group_duplicates: test written positively, branches exchanged, locals renamed", "neutral", "mofun/helpers.py",
+     [("def group_duplicates(match_indices, key=lambda m: tuple(sorted(m))):\n    keyed_tuples = {}\n    for m in match_indices:\n        mkey = key(m)\n        if mkey not in keyed_tuples:\n            keyed_tuples[mkey] = [m]\n        else:\n            keyed_tuples[mkey].append(m)\n    return keyed_tuples",
+       "def group_duplicates(match_indices, key=lambda m: tuple(sorted(m))):\n    keyed_tuples = {}\n    for t in match_indices:\n        k = key(t)\n        if k in keyed_tuples:\n            keyed_tuples[k].append(t)\n        else:\n            keyed_tuples[k] = [t]\n    return keyed_tuples")], "C02", "pass"),
+    ("delete_if_all_in_set: == 0 -> > 0", "breaking", "mofun/rough_uff.py", [("if len(set(tup) - s) == 0:", "if len(set(tup) - s) > 0:")], "C19", "fail"),
+    ("delete_if_all_in_set: difference reversed", "breaking", "mofun/rough_uff.py", [("if len(set(tup) - s) == 0:", "if len(s - set(tup)) == 0:")], "C19", "fail"),
+    ("delete_if_all_in_set: subset test instead of empty difference, locals renamed", "neutral", "mofun/rough_uff.py",
+     [("    deletion_list = []\n    for i, tup in enumerate(arr):\n        if len(set(tup) - s) == 0:\n            deletion_list.append(i)\n    return np.delete(arr, deletion_list, axis=0)",
+       "    deletion_list = []\n    for k, t in enumerate(arr):\n        if set(t) <= s:\n            deletion_list.append(k)\n    return np.delete(arr, deletion_list, axis=0)")], "C19", "pass?"),
+    ("mofun_cli: charges applied AFTER replicate (two steps re-ordered)", "breaking", "mofun/cli/mofun_cli.py",
+     [("    if replicate is not None:\n        atoms = atoms.replicate(replicate)\n\n", ""),
+      ("    # update charges\n", "    if replicate is not None:\n        atoms = atoms.replicate(replicate)\n\n    # update charges\n")], "C20", "fail"),
+    ("mofun_cli: atol no longer passed to replace", "breaking", "mofun/cli/mofun_cli.py",
+     [("replace_pattern_in_structure(atoms, search_pattern, replace_pattern, atol=atol,", "replace_pattern_in_structure(atoms, search_pattern, replace_pattern,")], "C20", "fail"),
+    ("mofun_cli: hints dropped from find", "breaking", "mofun/cli/mofun_cli.py",
+     [("results = find_pattern_in_structure(atoms, search_pattern, atol=atol,\n                axisp1_idx=axisp1_idx, axisp2_idx=axisp2_idx, opoint_idx=opoint_idx)", "results = find_pattern_in_structure(atoms, search_pattern, atol=atol)")], "C20", "fail"),
+    ("mofun_cli: pp guard negated", "breaking", "mofun/cli/mofun_cli.py", [("    if pp:\n", "    if not pp:\n")], "C20", "fail"),
+    ("mofun_cli: '.cml' accepted as native OUTPUT suffix", "breaking", "mofun/cli/mofun_cli.py",
+     [("if outputpath.suffix in ['.lmpdat', '.mol', '.cif']:", "if outputpath.suffix in ['.lmpdat', '.mol', '.cif', '.cml']:")], "C20", "fail"),
+    ("mofun_cli: replace pattern loaded before the search pattern", "breaking", "mofun/cli/mofun_cli.py",
+     [("        search_pattern = Atoms.load(find_path)\n        if replace_path is not None:\n            replace_pattern = Atoms.load(replace_path)\n",
+       "        if replace_path is not None:\n            replace_pattern = Atoms.load(replace_path)\n        search_pattern = Atoms.load(find_path)\n        if replace_path is not None:\n")], "C20", "fail"),
+    ("mofun_cli: locals renamed, comments changed", "neutral", "mofun/cli/mofun_cli.py",
+     [("        search_pattern = Atoms.load(find_path)\n", "        sp = Atoms.load(find_path)  # the pattern\n"),
+      ("replace_pattern_in_structure(atoms, search_pattern, replace_pattern,", "replace_pattern_in_structure(atoms, sp, replace_pattern,"),
+      ("results = find_pattern_in_structure(atoms, search_pattern,", "results = find_pattern_in_structure(atoms, sp,")], "C20", "pass"),
     # ---- leaving the subset
     ("max_bond_length: while loop added (outside the subset)", "unsupported", "mofun/detect_bonds.py",
      [('    """Return the maximum length of a bond between two elements"""\n', '    while False:\n        pass\n')], "C17", "Unsupported"),
@@ -91,21 +137,43 @@ MUTATIONS = [
 _IMPORT = re.compile(r"^import\s+(\S+)\s*$", re.M)
 
 
+def _uses_code(mod, seen):
+    """does module `mod` (MofunModel.…) import the generated Code.lean, directly or through such a module"""
+    if mod == "MofunModel.Generated.Code":
+        return True
+    if mod in seen:
+        return seen[mod]
+    seen[mod] = False
+    p = os.path.join(core.LEAN, *mod.split(".")) + ".lean"
+    if mod.startswith("MofunModel.Proofs.") and os.path.exists(p):
+        seen[mod] = any(_uses_code(m, seen) for m in _IMPORT.findall(open(p).read()))
+    return seen[mod]
+
+
 def scratch_file(ids, code_text):
-    """one Lean file = generated Code.lean + CodeLemmas + the Props files, imports merged"""
-    parts = [code_text, open(os.path.join(core.LEAN, "MofunModel", "Proofs", "CodeLemmas.lean")).read()]
-    marks = []
+    """one Lean file = generated Code.lean + the lemma files that depend on it + the Props files, imports merged"""
+    seen, order = {}, []
+
+    def visit(mod):
+        if mod in order or mod == "MofunModel.Generated.Code" or not _uses_code(mod, seen):
+            return
+        for m in _IMPORT.findall(open(os.path.join(core.LEAN, *mod.split(".")) + ".lean").read()):
+            visit(m)
+        order.append(mod)
     for i in ids:
-        parts.append(open(os.path.join(core.LEAN, "MofunModel", "Props", "%sCode.lean" % i)).read())
-    own = {"MofunModel.Generated.Code", "MofunModel.Proofs.CodeLemmas"}
+        visit_props = "MofunModel.Props.%sCode" % i
+        for m in _IMPORT.findall(open(os.path.join(core.LEAN, *visit_props.split(".")) + ".lean").read()):
+            visit(m)
+        order.append(visit_props)
+    parts = [code_text] + [open(os.path.join(core.LEAN, *m.split(".")) + ".lean").read() for m in order]
+    own = set(order) | {"MofunModel.Generated.Code"}
     imports = []
     for p in parts:
         for m in _IMPORT.findall(p):
             if m not in own and m not in imports:
                 imports.append(m)
     body = "\n".join(_IMPORT.sub("", p) for p in parts)
-    text = "".join("import %s\n" % m for m in imports) + body
-    return text
+    return "".join("import %s\n" % m for m in imports) + body
 
 
 def theorem_at(lines, lineno):
